@@ -2,6 +2,7 @@ package rules
 
 import (
 	"fmt"
+	"go/constant"
 	"go/token"
 	"go/types"
 	"strings"
@@ -239,37 +240,219 @@ func extCallName(cl *ssa.Call) string {
 	return ""
 }
 
+// convUse is a conversion as one terminal parser sees it: the call in the parser (the conversion itself, or a
+// library helper wrapping it), the values carrying the converted result, and the test telling that it failed.
+type convUse struct {
+	call   *ssa.Call
+	what   string
+	vals   []ssa.Value
+	failed func(cd ssax.Cond) bool // the condition's outcome puts the block on the failure side
+	failIf func(cond ssa.Value) (onTrue bool, ok bool)
+}
+
+func errFailTests(errv ssa.Value) (func(ssax.Cond) bool, func(ssa.Value) (bool, bool)) {
+	return func(cd ssax.Cond) bool {
+			x, nilIfTrue, isNT := nilTest(cd.Val)
+			return isNT && x == errv && cd.Truth != nilIfTrue
+		}, func(cond ssa.Value) (bool, bool) {
+			x, nilIfTrue, isNT := nilTest(cond)
+			if !isNT || x != errv {
+				return false, false
+			}
+			return !nilIfTrue, true
+		}
+}
+
+// convHelper verifies a library helper wrapping one conversion: (value..., ok bool) or (value..., err error). Its
+// status result is true / nil only where the conversion's error is known nil, and the value result comes from the
+// conversion. It returns the conversion's name, or "" with the reason.
+func (c *Ctx) convHelper(h *ssa.Function) (string, string) {
+	var convs []*ssa.Call
+	for _, call := range ssax.Calls(h) {
+		if cl, ok := call.(*ssa.Call); ok && conversionFns[extCallName(cl)] {
+			convs = append(convs, cl)
+		}
+	}
+	if len(convs) != 1 {
+		return "", ""
+	}
+	cv := convs[0]
+	res := h.Signature.Results()
+	if res.Len() < 2 {
+		return "", "the helper " + c.name(h) + " wraps " + extCallName(cv) + " but has no status result"
+	}
+	errEx := ssax.Extracts(cv, cv.Type().(*types.Tuple).Len()-1)
+	if len(errEx) == 0 {
+		return "", "the helper " + c.name(h) + " discards the error of " + extCallName(cv)
+	}
+	errv := ssa.Value(errEx[0])
+	knownNil := func(b *ssa.BasicBlock) bool {
+		for _, cd := range ssax.DominatingConds(b) {
+			if x, nilIfTrue, isNT := nilTest(cd.Val); isNT && x == errv && cd.Truth == nilIfTrue {
+				return true
+			}
+		}
+		return false
+	}
+	last := res.At(res.Len() - 1).Type()
+	isBool := false
+	if bt, ok := last.Underlying().(*types.Basic); ok && bt.Kind() == types.Bool {
+		isBool = true
+	} else if !isErrorType(last) {
+		return "", "the helper " + c.name(h) + " wraps " + extCallName(cv) + " but its last result is neither bool nor an error"
+	}
+	// v true => err == nil
+	var implies func(v ssa.Value, at *ssa.BasicBlock, depth int) bool
+	implies = func(v ssa.Value, at *ssa.BasicBlock, depth int) bool {
+		if depth > 8 {
+			return false
+		}
+		if knownNil(at) {
+			return true
+		}
+		switch x := v.(type) {
+		case *ssa.Const:
+			return x.Value != nil && x.Value.Kind() == constant.Bool && !constant.BoolVal(x.Value)
+		case *ssa.BinOp:
+			y, nilIfTrue, isNT := nilTest(x)
+			return isNT && y == errv && nilIfTrue
+		case *ssa.UnOp:
+			if x.Op == token.NOT {
+				y, nilIfTrue, isNT := nilTest(x.X)
+				return isNT && y == errv && !nilIfTrue
+			}
+		case *ssa.Phi:
+			for i, e := range x.Edges {
+				if !implies(e, x.Block().Preds[i], depth+1) {
+					return false
+				}
+			}
+			return true
+		}
+		return false
+	}
+	val0 := ssax.Extracts(cv, 0)
+	for _, r := range ssax.Returns(h) {
+		st := r.Results[len(r.Results)-1]
+		if isBool {
+			if !implies(st, r.Block(), 0) {
+				return "", "the helper " + c.name(h) + " can report success at " + c.P.InstrPos(r) + " although " + extCallName(cv) + " failed"
+			}
+		} else {
+			s := ssax.Strip(st)
+			if s != errv && ssax.IsNilConst(s) && !knownNil(r.Block()) {
+				return "", "the helper " + c.name(h) + " can return a nil error at " + c.P.InstrPos(r) + " although " + extCallName(cv) + " failed"
+			}
+			if s != errv && !ssax.IsNilConst(s) {
+				if _, isCall := s.(*ssa.Call); !isCall {
+					if _, isMI := s.(*ssa.MakeInterface); !isMI {
+						return "", "the helper " + c.name(h) + " returns an error of unknown origin at " + c.P.InstrPos(r)
+					}
+				}
+			}
+		}
+		// value plumbing
+		rv := ssax.Strip(r.Results[0])
+		if _, isConst := rv.(*ssa.Const); isConst {
+			continue
+		}
+		dep := false
+		for _, v0 := range val0 {
+			if rv == ssa.Value(v0) || dependsOn(rv, v0, func(k *ssa.Call) bool { return false }) {
+				dep = true
+			}
+			if cvt, ok := rv.(*ssa.Convert); ok && cvt.X == ssa.Value(v0) {
+				dep = true
+			}
+		}
+		if !dep {
+			return "", "the helper " + c.name(h) + " returns at " + c.P.InstrPos(r) + " a value that does not come from " + extCallName(cv)
+		}
+	}
+	return extCallName(cv), ""
+}
+
 func (c *Ctx) ruleR08b(rule string) {
 	c.R.Rule(rule, "in every terminal parser the error of a strconv/time conversion is tested, its failure branch returns (nil, _, error) and never panics, and every node the terminal builds takes its value from the conversion's result", 4)
 	for _, fn := range c.terminalParsers() {
 		name := c.name(fn)
-		var convs []*ssa.Call
+		var convs []convUse
 		for _, call := range ssax.Calls(fn) {
-			if cl, ok := call.(*ssa.Call); ok && conversionFns[extCallName(cl)] {
-				convs = append(convs, cl)
-			}
-		}
-		for _, cv := range convs {
-			site := name + " " + extCallName(cv) + " @" + c.P.InstrPos(cv)
-			nres := cv.Type().(*types.Tuple).Len()
-			errEx := ssax.Extracts(cv, nres-1)
-			if len(errEx) == 0 {
-				c.R.Violation(rule, name+" ignores conversion error", name, c.P.InstrPos(cv), "the error of "+extCallName(cv)+" is discarded: an out-of-range or malformed literal yields a node with a wrong value")
+			cl, ok := call.(*ssa.Call)
+			if !ok {
 				continue
 			}
+			if conversionFns[extCallName(cl)] {
+				nres := cl.Type().(*types.Tuple).Len()
+				errEx := ssax.Extracts(cl, nres-1)
+				if len(errEx) == 0 {
+					c.R.Violation(rule, name+" ignores conversion error", name, c.P.InstrPos(cl), "the error of "+extCallName(cl)+" is discarded: an out-of-range or malformed literal yields a node with a wrong value")
+					continue
+				}
+				u := convUse{call: cl, what: extCallName(cl)}
+				u.failed, u.failIf = errFailTests(errEx[0])
+				for _, e := range ssax.Extracts(cl, 0) {
+					u.vals = append(u.vals, e)
+				}
+				convs = append(convs, u)
+				continue
+			}
+			// a library helper wrapping the conversion
+			h := cl.Call.StaticCallee()
+			if h == nil || cl.Call.IsInvoke() || !c.P.InLib(h) || len(h.Blocks) == 0 || ssax.IsParserSig(h.Signature) {
+				continue
+			}
+			what, why := c.convHelper(h)
+			if what == "" {
+				if why != "" {
+					c.R.Violation(rule, name+" conversion helper "+c.name(h), c.name(h), c.P.InstrPos(cl), why)
+				}
+				continue
+			}
+			tup, ok := cl.Type().(*types.Tuple)
+			if !ok {
+				continue
+			}
+			stEx := ssax.Extracts(cl, tup.Len()-1)
+			if len(stEx) == 0 {
+				c.R.Violation(rule, name+" ignores conversion error", name, c.P.InstrPos(cl), "the status result of "+c.name(h)+" (wrapping "+what+") is discarded: an out-of-range or malformed literal yields a node with a wrong value")
+				continue
+			}
+			u := convUse{call: cl, what: what + " via " + c.name(h)}
+			if isErrorType(tup.At(tup.Len() - 1).Type()) {
+				u.failed, u.failIf = errFailTests(stEx[0])
+			} else {
+				st := ssa.Value(stEx[0])
+				u.failed = func(cd ssax.Cond) bool { return cd.Val == st && !cd.Truth }
+				u.failIf = func(cond ssa.Value) (bool, bool) {
+					if cond == st {
+						return false, true
+					}
+					if n, ok := cond.(*ssa.UnOp); ok && n.Op == token.NOT && n.X == st {
+						return true, true
+					}
+					return false, false
+				}
+			}
+			for _, e := range ssax.Extracts(cl, 0) {
+				u.vals = append(u.vals, e)
+			}
+			convs = append(convs, u)
+		}
+		for _, u := range convs {
+			cv := u.call
+			site := name + " " + u.what + " @" + c.P.InstrPos(cv)
 			// the failure branch
 			okFail := false
 			for _, b := range fn.Blocks {
 				for _, cd := range ssax.DominatingConds(b) {
-					x, nilIfTrue, isNT := nilTest(cd.Val)
-					if !isNT || x != ssa.Value(errEx[0]) || cd.Truth == nilIfTrue {
+					if !u.failed(cd) {
 						continue
 					}
-					// b is on the err != nil side
 					if len(b.Instrs) > 0 {
 						switch t := b.Instrs[len(b.Instrs)-1].(type) {
 						case *ssa.Panic:
-							c.R.Violation(rule, name+" panics on conversion error", name, c.P.InstrPos(t), extCallName(cv)+" failing (e.g. an out-of-range number) makes the parser panic; its siblings return an 'invalid ... value' error")
+							c.R.Violation(rule, name+" panics on conversion error", name, c.P.InstrPos(t), u.what+" failing (e.g. an out-of-range number) makes the parser panic; its siblings return an 'invalid ... value' error")
 						case *ssa.Return:
 							if len(t.Results) == 3 && ssax.IsNilConst(ssax.Strip(t.Results[0])) && !ssax.IsNilConst(ssax.Strip(t.Results[2])) {
 								okFail = true
@@ -279,7 +462,7 @@ func (c *Ctx) ruleR08b(rule string) {
 				}
 			}
 			// `tail != "" || err != nil` style: the failure return is reached through an || — accept a return of an
-			// error in a block reachable only after the conversion whose conditions mention the error
+			// error in a block entered directly from the failing outcome of the test
 			if !okFail {
 				for _, r := range ssax.Returns(fn) {
 					if len(r.Results) != 3 || !ssax.IsNilConst(ssax.Strip(r.Results[0])) || ssax.IsNilConst(ssax.Strip(r.Results[2])) {
@@ -287,19 +470,20 @@ func (c *Ctx) ruleR08b(rule string) {
 					}
 					for _, p := range r.Block().Preds {
 						if ifi, ok := p.Instrs[len(p.Instrs)-1].(*ssa.If); ok {
-							if x, nilIfTrue, isNT := nilTest(ifi.Cond); isNT && x == ssa.Value(errEx[0]) && !nilIfTrue && p.Succs[0] == r.Block() {
-								okFail = true
+							if onTrue, ok := u.failIf(ifi.Cond); ok {
+								if onTrue && p.Succs[0] == r.Block() || !onTrue && p.Succs[1] == r.Block() {
+									okFail = true
+								}
 							}
 						}
 					}
 				}
 			}
 			if !okFail {
-				c.R.Violation(rule, name+" conversion error not returned", name, c.P.InstrPos(cv), "no branch tests the error of "+extCallName(cv)+" and returns (nil, _, error) on failure")
+				c.R.Violation(rule, name+" conversion error not returned", name, c.P.InstrPos(cv), "no branch tests the error of "+u.what+" and returns (nil, _, error) on failure")
 				continue
 			}
 			// value plumbing: every constructed node's value argument depends on the conversion's first result
-			val0 := ssax.Extracts(cv, 0)
 			okVal := true
 			for _, r := range ssax.Returns(fn) {
 				if len(r.Results) != 3 || ssax.IsNilConst(ssax.Strip(r.Results[0])) {
@@ -311,18 +495,18 @@ func (c *Ctx) ruleR08b(rule string) {
 				}
 				dep := false
 				for _, a := range ctor.Call.Args {
-					for _, v0 := range val0 {
-						if dependsOn(a, v0, func(k *ssa.Call) bool { return false }) || ssax.Strip(a) == ssa.Value(v0) {
+					for _, v0 := range u.vals {
+						if dependsOn(a, v0, func(k *ssa.Call) bool { return false }) || ssax.Strip(a) == v0 {
 							dep = true
 						}
-						if cvt, ok := a.(*ssa.Convert); ok && cvt.X == ssa.Value(v0) {
+						if cvt, ok := a.(*ssa.Convert); ok && cvt.X == v0 {
 							dep = true
 						}
 					}
 				}
 				if !dep {
 					okVal = false
-					c.R.Violation(rule, name+" node value bypasses the conversion", name, c.P.InstrPos(r), "a node is built whose value does not come from "+extCallName(cv)+": on that path the literal is decoded differently from Go's conversion")
+					c.R.Violation(rule, name+" node value bypasses the conversion", name, c.P.InstrPos(r), "a node is built whose value does not come from "+u.what+": on that path the literal is decoded differently from Go's conversion")
 				}
 			}
 			if okVal {
